@@ -222,8 +222,10 @@ package db
 
 //@ func db.parseHeader
 //@   props C15 C08 C05
-//@   modifies hdr_valid alloc
+//@   modifies hdr_valid hdr_ps hdr_cookie alloc
 //@   ghost-exit hdr_valid = err == nil
+//@   ghost-exit hdr_ps = r0.PageSize
+//@   ghost-exit hdr_cookie = r0.SchemaCookie
 //@   ensures [valid] hdr_valid <==> err == nil
 //@   ensures [sound] err == nil ==> hdr_ok(mem(b), off(b), len(b))
 //@   ensures [complete] hdr_ok(mem(b), off(b), len(b)) ==> err == nil
